@@ -5,9 +5,9 @@
    implementation's GetN answers to equal both this specification and the
    loop-level model shared with C18/C19 on every generated case. Section and
    series hashes are arbitrary data of the statements. *)
-From Coq Require Import ZArith List Bool Arith Lia.
+From Coq Require Import ZArith List Bool Arith Lia Permutation.
 Import ListNotations.
-From Verif Require Import Lib.Corr Lib.Hashring_Ketama Gen.C20 Model.C20 Proofs.C20 Proofs.C20_Loop.
+From Verif Require Import Lib.Corr Lib.Hashring_Ketama Lib.Hashring_Answers Gen.C20 Model.C20 Proofs.C20 Proofs.C20_Loop Proofs.C20_Multi.
 Close Scope Z_scope.
 
 (* For every ring (any number of nodes and sections per node), every position
@@ -69,6 +69,48 @@ Theorem C20_only_onto_new_loop : forall hs p e rf v,
 Proof. exact add_node_loop. Qed.
 Print Assumptions C20_only_onto_new_loop.
 
+(* ---- the public constructor NewMultiHashring (one ketama hashring config) ----
+   Source fact read on this run: every assignment to m.nodes appends onto m.nodes itself,
+   so the constructor's final sort of m.nodes cannot reorder the endpoint slice the ring
+   sections index into. *)
+Theorem C20_nodes_not_aliased : nodes_copied = true.
+Proof. exact nodes_copied_true. Qed.
+Print Assumptions C20_nodes_not_aliased.
+
+(* Placement depends on the SET of configured endpoints only: for every permutation of
+   the endpoint list (addresses and their sections permuted together, any zones, any
+   collision-free hashes) GetN of the multi-hashring answers the same addresses. *)
+Theorem C20_multi_placement_depends_on_set_only : forall addrs eps perm,
+  Permutation perm (seq 0 (length eps)) ->
+  NoDup (map s_hash (sections_of 0 eps)) ->
+  forall rf v, sections_of 0 eps <> [] ->
+  multi_getn_gen true (permute (-1)%Z addrs perm) (permute (0%Z, []) eps perm) rf v
+  = multi_getn_gen true addrs eps rf v.
+Proof. exact multi_set_only. Qed.
+Print Assumptions C20_multi_placement_depends_on_set_only.
+
+(* Were m.nodes the ring's own slice, the sort would make placement depend on the list order. *)
+Theorem C20_aliased_nodes_refuted :
+  exists addrs eps perm rf v,
+    Permutation perm (seq 0 (length eps)) /\ NoDup (map s_hash (sections_of 0 eps)) /\
+    multi_getn_gen false (permute (-1)%Z addrs perm) (permute (0%Z, []) eps perm) rf v
+    <> multi_getn_gen false addrs eps rf v.
+Proof. exact aliased_order_dependent. Qed.
+Print Assumptions C20_aliased_nodes_refuted.
+
+(* Adding a node through the public constructor, endpoint lists in ANY order, the new
+   endpoint inserted at ANY position: the answers, as positions in the configured lists,
+   satisfy the predicate the check evaluates. *)
+Theorem C20_only_onto_new_multi : forall addrs a_new hs p e rf v,
+  p <= length hs -> length addrs = length hs ->
+  NoDup addrs -> NoDup (ins p a_new addrs) ->
+  NoDup (map s_hash (sections_of 0 (nozone (ins p e hs)))) ->
+  only_onto_new p
+    (map (answered_pos addrs) (spec_answers (spec_ring hs) rf v))
+    (map (answered_pos (ins p a_new addrs)) (spec_answers (spec_ring (ins p e hs)) rf v)) = true.
+Proof. exact add_node_multi. Qed.
+Print Assumptions C20_only_onto_new_multi.
+
 (* Non-vacuity: three nodes with two sections each, a node added in the middle;
    the series at hash 10 gains the new node (position 1) in place of old node 2. *)
 Example C20_nonvacuous :
@@ -89,3 +131,13 @@ Example C20_loop_nonvacuous :
   loop_answers hs 2 10%Z = Some [1; 2] /\ loop_answers (ins 1 [12; 60]%Z hs) 2 10%Z = Some [1; 2]
   /\ Forall (fun h => h <> []) (ins 1 [12; 60]%Z hs).
 Proof. split; [vm_compute; reflexivity|]. split; [vm_compute; reflexivity|]. repeat constructor; discriminate. Qed.
+
+Example C20_multi_nonvacuous :
+  let addrs := [2; 0; 1]%Z in let eps := [(0, [5; 40]); (0, [20; 70]); (0, [30; 90])]%Z in
+  Permutation [1; 2; 0] (seq 0 (length eps)) /\ NoDup (map s_hash (sections_of 0 eps)) /\
+  multi_getn_gen true addrs eps 2 10%Z = Some [0; 1]%Z /\
+  multi_getn_gen true (permute (-1)%Z addrs [1; 2; 0]) (permute (0%Z, []) eps [1; 2; 0]) 2 10%Z = Some [0; 1]%Z.
+Proof.
+  split; [apply NoDup_Permutation; [repeat constructor; simpl; intuition discriminate|apply seq_NoDup|intro x; simpl; intuition]|].
+  split; [vm_compute; repeat constructor; simpl; intuition discriminate|]. split; vm_compute; reflexivity.
+Qed.
